@@ -8,9 +8,12 @@ package main
 //   sel  := (sel V...)                       one variant per possible concrete object type
 //   V    := (v ("T") (k "key" uid TY)...)
 //   TY   := (nn TY) | (l TY) | (sc Name) | (en "V"...) | (tn) | (ob sel)
+//         | (ents ("T"...) TY)   the _entities list: item i is an object of the i-th representation's type
 
 import (
 	"strings"
+
+	"github.com/tidwall/gjson"
 
 	"gvh/common"
 )
@@ -90,6 +93,16 @@ func (g *Gen) shapeOfSel(op *Op, sets [][]*Node, parents []string, typeName stri
 						}
 					}
 					ty = g.shapeOfType(op, fd.Type, subs, subParents, childCtx(g.S, ctx, fd))
+					if first.Name == "_entities" {
+						// [_Entity!]!: exactly one entity per representation, in representation order
+						var names []string
+						gjson.ParseBytes(op.Values["representations"]).ForEach(func(_, v gjson.Result) bool {
+							names = append(names, common.QS(v.Get("__typename").String()))
+							return true
+						})
+						item := g.shapeOfType(op, fd.Type.Of.Of, subs, subParents, childCtx(g.S, ctx, fd))
+						ty = common.L("ents", common.L(names...), item)
+					}
 				}
 			}
 			tag := "plain"
